@@ -1247,6 +1247,7 @@ type c07ConcFail struct {
 	obs      []string
 	exp      [][]c07Part
 	other    string
+	leak     string
 	wire     bool
 }
 
@@ -1297,7 +1298,7 @@ func c07ConcurrentPhase(run *vfRun, t *testing.T) {
 					if sess.Cookie != "" {
 						req.H("Cookie", sess.Cookie)
 					}
-					client, _, _ := c07Spoof(req, []int{0, 1, 3, 0}[i%4], spoofNames, sess, fmt.Sprintf("c%d.%d.%d", k, ui, i))
+					client, tokens, _ := c07Spoof(req, []int{0, 1, 3, 0}[i%4], spoofNames, sess, fmt.Sprintf("c%d.%d.%d", k, ui, i))
 					wire := i%5 == 4
 					var resp *vfResp
 					if wire {
@@ -1328,7 +1329,11 @@ func c07ConcurrentPhase(run *vfRun, t *testing.T) {
 							}
 						}
 						mu.Lock()
-						fails = append(fails, c07ConcFail{sess: sess, req: req, ep: ep.Name, side: side, h: h, client: cl, obs: obs, exp: exp, other: other, wire: wire})
+						f := c07ConcFail{sess: sess, req: req, ep: ep.Name, side: side, h: h, client: cl, obs: obs, exp: exp, other: other, wire: wire}
+						if !h.Preserve {
+							f.leak = c07ContainsAny(obs, tokens)
+						}
+						fails = append(fails, f)
 						mu.Unlock()
 					}
 					if ep.Name == "auth-only" {
@@ -1381,7 +1386,9 @@ func c07ConcurrentPhase(run *vfRun, t *testing.T) {
 			if f.side == "auth-response" {
 				sig = "c07:auth-response-header-values-differ"
 			}
-			if f.other != "" || aloneOK {
+			if f.leak != "" && f.side == "upstream-request" {
+				sig, what = "c07:spoofed-value-reaches-upstream", "client-supplied value "+f.leak+" reaches the upstream under a non-preserved name"
+			} else if f.other != "" || aloneOK {
 				sig = "c07:identity-of-another-request"
 				what = "under concurrent load the header does not carry this request's own user"
 				if f.other != "" {
